@@ -7,6 +7,7 @@ package main
 import (
 	"context"
 	"fmt"
+	"math/rand"
 	"reflect"
 	"strconv"
 	"strings"
@@ -14,6 +15,7 @@ import (
 
 	"go.opentelemetry.io/otel/attribute"
 	"go.opentelemetry.io/otel/log"
+	"go.opentelemetry.io/otel/sdk/instrumentation"
 	sdklog "go.opentelemetry.io/otel/sdk/log"
 	"go.opentelemetry.io/otel/trace"
 	commonpb "go.opentelemetry.io/proto/otlp/common/v1"
@@ -45,7 +47,13 @@ func (p *capProc) OnEmit(_ context.Context, r *sdklog.Record) error {
 func (p *capProc) Shutdown(context.Context) error   { return nil }
 func (p *capProc) ForceFlush(context.Context) error { return nil }
 
+// severities outside the 0..24 range of the data model
+var sevOutReps = []int{25, -1, 100, 1 << 20}
+
 func sevOf(c string) log.Severity {
+	if c == "sevout" {
+		return log.Severity(sevOutReps[0])
+	}
 	n, err := strconv.Atoi(strings.TrimPrefix(c, "sev"))
 	if err != nil || !strings.HasPrefix(c, "sev") {
 		harnessBug("severity class %q", c)
@@ -63,6 +71,68 @@ func setDropped(r *sdklog.Record, n int) {
 	reflect.NewAt(rf.Type(), unsafe.Pointer(rf.UnsafeAddr())).Elem().Set(reflect.ValueOf(n))
 }
 
+// loggerOf: the real Logger of a scope
+func loggerOf(p *sdklog.LoggerProvider, sc instrumentation.Scope) log.Logger {
+	opts := []log.LoggerOption{}
+	if sc.Version != "" {
+		opts = append(opts, log.WithInstrumentationVersion(sc.Version))
+	}
+	if sc.SchemaURL != "" {
+		opts = append(opts, log.WithSchemaURL(sc.SchemaURL))
+	}
+	if sc.Attributes.Len() > 0 {
+		opts = append(opts, log.WithInstrumentationAttributes(sc.Attributes.ToSlice()...))
+	}
+	return p.Logger(sc.Name, opts...)
+}
+
+// apiRecord: the API-level log record of an abstract item and the context (trace context) it is emitted with
+func apiRecord(r *rand.Rand, id int, fv LogFV) (rec log.Record, ctx context.Context, tid trace.TraceID, sid trace.SpanID, fl trace.TraceFlags, body log.Value) {
+	rec.SetTimestamp(concTime(r, fv.Ts))
+	rec.SetObservedTimestamp(concTime(r, fv.Obs))
+	if fv.Sev == "sevout" {
+		rec.SetSeverity(log.Severity(pick(r, sevOutReps, "severity", fv.Sev)))
+	} else {
+		rec.SetSeverity(sevOf(fv.Sev))
+	}
+	st := concStr("sevtext", fv.Sevtext)
+	if st != "" {
+		st = fmt.Sprintf("%s#%d", st, id) // second carrier of the item id
+	}
+	rec.SetSeverityText(st)
+	rec.SetEventName(concStr("event", fv.Event))
+	body = pick(r, bodyReps[fv.Body], "body", fv.Body)
+	rec.SetBody(body)
+	var kvs []log.KeyValue
+	if fv.Attrs != "labare" {
+		kvs = append(kvs, log.Int(idAttr, id))
+	}
+	kvs = append(kvs, pick(r, logAttrReps[fv.Attrs], "log attrs", fv.Attrs)...)
+	rec.AddAttributes(kvs...)
+	switch fv.Ids {
+	case "ids":
+		tid, sid = mkTID("plain", id), mkSID("plain", id)
+	case "hibit":
+		tid, sid = mkTID("hibit", id), mkSID("hibit", id)
+	case "tidonly":
+		tid = mkTID("plain", id)
+	case "sidonly":
+		sid = mkSID("plain", id)
+	case "noids":
+	default:
+		harnessBug("log ids class %q", fv.Ids)
+	}
+	switch fv.Flags {
+	case "f1":
+		fl = trace.FlagsSampled
+	case "f0":
+	default:
+		harnessBug("flags class %q", fv.Flags)
+	}
+	ctx = trace.ContextWithSpanContext(context.Background(), trace.NewSpanContext(trace.SpanContextConfig{TraceID: tid, SpanID: sid, TraceFlags: fl}))
+	return
+}
+
 func buildLogs(w *World, batch []Item) []sdklog.Record {
 	r := w.rng
 	provs := map[string]*sdklog.LoggerProvider{}
@@ -77,62 +147,8 @@ func buildLogs(w *World, batch []Item) []sdklog.Record {
 				sdklog.WithAttributeCountLimit(-1), sdklog.WithAttributeValueLengthLimit(-1))
 			provs[it.R] = p
 		}
-		sc := w.scopeOf(it.S)
-		opts := []log.LoggerOption{}
-		if sc.Version != "" {
-			opts = append(opts, log.WithInstrumentationVersion(sc.Version))
-		}
-		if sc.SchemaURL != "" {
-			opts = append(opts, log.WithSchemaURL(sc.SchemaURL))
-		}
-		if sc.Attributes.Len() > 0 {
-			opts = append(opts, log.WithInstrumentationAttributes(sc.Attributes.ToSlice()...))
-		}
-		lg := p.Logger(sc.Name, opts...)
-
-		var rec log.Record
-		rec.SetTimestamp(concTime(r, fv.Ts))
-		rec.SetObservedTimestamp(concTime(r, fv.Obs))
-		rec.SetSeverity(sevOf(fv.Sev))
-		st := concStr("sevtext", fv.Sevtext)
-		if st != "" {
-			st = fmt.Sprintf("%s#%d", st, it.ID) // second carrier of the item id
-		}
-		rec.SetSeverityText(st)
-		rec.SetEventName(concStr("event", fv.Event))
-		body := pick(r, bodyReps[fv.Body], "body", fv.Body)
-		rec.SetBody(body)
-		var kvs []log.KeyValue
-		if fv.Attrs != "labare" {
-			kvs = append(kvs, log.Int(idAttr, it.ID))
-		}
-		kvs = append(kvs, pick(r, logAttrReps[fv.Attrs], "log attrs", fv.Attrs)...)
-		rec.AddAttributes(kvs...)
-
-		var tid trace.TraceID
-		var sid trace.SpanID
-		switch fv.Ids {
-		case "ids":
-			tid, sid = mkTID("plain", it.ID), mkSID("plain", it.ID)
-		case "hibit":
-			tid, sid = mkTID("hibit", it.ID), mkSID("hibit", it.ID)
-		case "tidonly":
-			tid = mkTID("plain", it.ID)
-		case "sidonly":
-			sid = mkSID("plain", it.ID)
-		case "noids":
-		default:
-			harnessBug("log ids class %q", fv.Ids)
-		}
-		var fl trace.TraceFlags
-		switch fv.Flags {
-		case "f1":
-			fl = trace.FlagsSampled
-		case "f0":
-		default:
-			harnessBug("flags class %q", fv.Flags)
-		}
-		ctx := trace.ContextWithSpanContext(context.Background(), trace.NewSpanContext(trace.SpanContextConfig{TraceID: tid, SpanID: sid, TraceFlags: fl}))
+		lg := loggerOf(p, w.scopeOf(it.S))
+		rec, ctx, tid, sid, fl, body := apiRecord(r, it.ID, fv)
 		n0 := len(cap.recs)
 		lg.Emit(ctx, rec)
 		if len(cap.recs) != n0+1 {
@@ -182,11 +198,7 @@ func projectLogRecord(lr *logpb.LogRecord) OutItem {
 		Ts: absTime(lr.GetTimeUnixNano()), Obs: absTime(lr.GetObservedTimeUnixNano()),
 		Event: absStr("event", lr.GetEventName()), Dropped: absCount(lr.GetDroppedAttributesCount()),
 	}
-	if n := int(lr.GetSeverityNumber()); n >= 0 && n <= 24 {
-		fv.Sev = fmt.Sprintf("sev%d", n)
-	} else {
-		fv.Sev = unk(fmt.Sprint(n))
-	}
+	fv.Sev = absSev(int(lr.GetSeverityNumber()))
 	id := -1
 	// severity text "SEVTXT#<id>"
 	st := lr.GetSeverityText()
